@@ -21,5 +21,52 @@ PROPS = {
     },
 }
 
+PROPS["C05"] = {
+    "lean_module": "LispModel.Props.C05",
+    "engines": [{"name": "scan", "quick": 20000, "thorough": 300000},
+                {"name": "read", "quick": 20000, "thorough": 300000},
+                {"name": "rwp", "quick": 15000, "thorough": 200000}],
+    "violation_if": {"read": r"^(PANIC|HANG)", "rwp": r"^(PANIC|HANG)", "scan": r"^(PANIC|HANG)"},
+    "technique": "Lean 4 totality + panic-freedom theorems about the scanner/reader model + differential correspondence on byte strings",
+    "level_text": "The scanner, reader and preamble reader are total Lean functions (termination checked by the kernel = no hang in the model); "
+                  "theorems show that no partial Go operation mirrored in the model (slices, type assertions, nil table, position carriers) is "
+                  "reachable for any byte string; the model is tied to reader.Read_str / READWithPreamble / Tokenize by diffing token streams, "
+                  "ASTs and error classes on exhaustive short strings over a hostile alphabet and grammar-mutated texts on every run.",
+    "level_note": "Trusted: Lean kernel; hand-written mirror of jig/scanner v1.2.0 and reader.go (checked by correspondence incl. token positions); "
+                  "the scanner's 1 KiB buffer refill is abstracted (exercised by padded inputs); unicode tables are dumped from Go on every run.",
+    "assumptions": ["jig/scanner's buffer refill logic is not modelled (the model scans an unbounded list); inputs padded to offsets 1015..1026 exercise it",
+                    "Go-constructor brackets call into the environment: only the constructors registered by core.Load are modelled"],
+}
+PROPS["C06"] = {
+    "lean_module": "LispModel.Props.C06",
+    "engines": [{"name": "print", "quick": 20000, "thorough": 400000},
+                {"name": "reread", "quick": 15000, "thorough": 300000}],
+    "technique": "Lean 4 round-trip theorems (escape/unescape, printed tokens) + differential correspondence of PRINT/READ",
+    "level_text": "Kernel-checked round-trip lemmas about the printer and reader models for all strings and all nestings; the models are tied to "
+                  "printer.Pr_str and reader.Read_str by printing generated values (hostile string pool) with the real PRINT, matching the text "
+                  "against the model up to map order, re-reading it with the real READ and with the model.",
+    "level_note": "Trusted: Lean kernel; hand-written printer/reader/scanner mirrors (checked by correspondence). Floats and Go-constructor values are outside the property.",
+    "assumptions": ["symbols/keywords are 'readable' as defined by the scanner model (Spec/Readable.lean)", "strings contain no NUL (known finding D11)"],
+}
+PROPS["C15"] = {
+    "lean_module": "LispModel.Props.C15",
+    "engines": [{"name": "preamble", "quick": 15000, "thorough": 300000}],
+    "technique": "Lean 4 theorems about the preamble line format and placeholder substitution + differential correspondence of AddPreamble/READWithPreamble",
+    "level_text": "Theorems about the Lean mirror of AddPreamble/READWithPreamble/read_placeholder; tie: READWithPreamble(AddPreamble(src, m)) versus "
+                  "Read_str(src, m) on generated sources and hostile value maps, both against the model and against each other.",
+    "level_note": "Trusted: Lean kernel; mirrors of mal.go's preamble functions incl. the regexp as a hand-written matcher (checked by correspondence).",
+    "assumptions": ["placeholder names range over [A-Za-z0-9_-]", "values are readable data (Spec/Readable.lean)"],
+}
+PROPS["C16"] = {
+    "lean_module": "LispModel.Props.C16",
+    "engines": [{"name": "cut", "quick": 2500, "thorough": 40000}],
+    "technique": "Lean 4 theorems about the reader on token prefixes + differential correspondence on cut/extended expressions incl. the REPL's multiLine verdict",
+    "level_text": "Theorems over token sequences (incomplete prefix reports the innermost closer; complete expressions are never reported incomplete; surplus "
+                  "closers and second expressions are rejected with a different class); tie: every well-formed generated expression cut after every token and "
+                  "extended by every closer, expectation computed by an independent grammar checker, compared with reader.Read_str, repl.multiLine and the model.",
+    "level_note": "Trusted: Lean kernel; reader mirror (checked by correspondence); the independent grammar checker in the harness.",
+    "assumptions": ["cuts that end in a reader-macro token or leave an odd map are outside the property's premise (cannot be completed by closers alone)"],
+}
+
 # properties not claimed at this commit, with the reason
 NOT_CLAIMED = {}
